@@ -6,9 +6,14 @@
              NotFurther for every specification at every clock instant of the
              bounded calendar (Moment_MC); the pinned transcription must not
    2. GEN    TLC prints the factors of the input space (specifications, days
-             with their calendar dates, times of day)          (Moment_Gen)
+             with their calendar dates, times of day) and every SHAPE of
+             dawgie.MOMENT (fields absent / well typed / ill typed) with the
+             model's WellFormed                                 (Moment_Gen)
    3. REPLAY the real _delay runs under an injected clock for the product
-             (sampled in quick) plus seeded random instants  (harness/moment_h)
+             (sampled in quick) plus seeded random instants; every shape is
+             offered to the REAL rule_10 and the accepted ones run through the
+             real _delay as well: the domain of the property is the rule's
+                                                             (harness/moment_h)
    4. TRACE  TLC evaluates the three clauses on every record   (Moment_Trace)
  (b) firing
    1. MC     implementation-shaped model of periodics/defer/dispatch/complete
@@ -52,9 +57,24 @@ def gen_domain(chk):
     specs = [{'k': r[1], 'n': r[2], 't': r[3], 'date': r[4:7]} for r in tlc.printed(res, 'SPEC')]
     days = [{'i': r[1], 'ymd': r[2:5], 'wd': r[5], 'edge': r[6]} for r in tlc.printed(res, 'DAY')]
     tods = sorted(r[1] for r in tlc.printed(res, 'TOD'))
-    if not specs or not days or not tods:
+    fields = ('boot', 'day', 'dom', 'dow', 'time')
+    SHAPES['shapes'] = [{'shape': dict(zip(fields, r[1:6])), 'wellformed': r[6]} for r in tlc.printed(res, 'SHAPE')]
+    v = tlc.printed(res, 'SHAPEVALUES')[0]
+    SHAPES['values'] = {'dow': v[1], 'dom': v[2], 'day': v[3:6], 'time': v[6]}
+    if not specs or not days or not tods or not SHAPES['shapes']:
         raise core.Machinery('Moment_Gen printed an empty domain')
     return epoch, specs, days, tods
+
+
+SHAPES = {}  # the shapes of dawgie.MOMENT printed by Moment_Gen (with the model's WellFormed, for counting only)
+
+
+def shape_jobs(epoch, instants, start):
+    '''every shape of MOMENT is offered to the real rule_10; an accepted one is evaluated at the given instants'''
+    return [
+        {'id': start + i, 'mode': 'shape', 'epoch': epoch, 'shape': sh['shape'], 'spec': {'k': 'shape', 'n': 0, 't': 0}, 'values': SHAPES['values'], 'nows': instants}
+        for i, sh in enumerate(SHAPES['shapes'])
+    ]
 
 
 def delay_jobs(epoch, specs, instants, extras, block):
@@ -67,6 +87,8 @@ def delay_jobs(epoch, specs, instants, extras, block):
 
 
 def sig_a(clause, spec, rec):
+    if spec['k'] == 'shape':
+        return 'shape-accepted-by-rule_10:' + (rec['obs']['exc'] or clause)
     if clause == 'C20.Computable':
         return f'{spec["k"]}:{rec["obs"]["exc"]}'
     if clause == 'C20.NotFurther':
@@ -79,7 +101,7 @@ def collect_a(chk, pid, jobs, files):
         'Moment_Trace.tla',
         dict(spec='TraceSpec', constants={'Variant': q(VARIANT)}, extra=['POSTCONDITION AllConsumed']),
         files,
-        tags=('CLAUSE', 'DRIFT', 'CONSUMED', 'CALBAD'),
+        tags=('CLAUSE', 'DRIFT', 'CONSUMED', 'CALBAD', 'ACCEPT'),
     )
     if rows['CALBAD']:
         raise core.Machinery(f'harness clock and specification calendar disagree: {rows["CALBAD"][:3]}')
@@ -87,10 +109,18 @@ def collect_a(chk, pid, jobs, files):
     need = {r[1] for r in rows['CLAUSE']} | {r[1] for r in rows['DRIFT'][:5]}
     traces = {}
     n_rec = n_nontrivial = n_unaccepted = 0
+    shapes = {'offered': 0, 'accepted': 0, 'accepted_records': 0}
     for fn in files:
         with open(fn) as f:
             for ln in f:
                 t = json.loads(ln)
+                if t['mode'] == 'shape':
+                    shapes['offered'] += 1
+                    shapes['accepted'] += 1 if t['acc'] else 0
+                    shapes['accepted_records'] += len(t['steps']) - 1
+                    if t['tid'] in need:
+                        traces[t['tid']] = t
+                    continue
                 if not t['acc']:
                     n_unaccepted += 1
                     continue
@@ -105,13 +135,22 @@ def collect_a(chk, pid, jobs, files):
         if len(chk.drift_samples) < 5:
             t = traces.get(r[1])
             chk.drift_samples.append({'trace': r[1], 'line': r[2], 'spec': byid[r[1]]['spec'], 'record': t['steps'][r[2] - 1] if t else None})
+    for r in rows['ACCEPT']:  # the real rule and the model's WellFormed disagree about a shape: drift, not an alarm
+        chk.drift += 1
+        if len(chk.drift_samples) < 5:
+            chk.drift_samples.append({'trace': r[1], 'shape': byid[r[1]].get('shape'), 'rule_10_accepts': r[2], 'model_wellformed': r[3]})
     for _tag, tid, line, _ev, bad in rows['CLAUSE']:
         job = byid[tid]
         rec = traces[tid]['steps'][line - 1]
         for clause in sorted(bad['set']):
             if clause.startswith(pid + '.'):
                 one = dict(job, nows=[rec['args']['now']])
-                chk.add_violation(clause, sig_a(clause, job['spec'], rec), {'spec': job['spec'], 'now': rec['args'], 'result': rec['obs']}, {'mode': 'delay', 'job': one})
+                what = {'shape': job['shape']} if job['mode'] == 'shape' else {'spec': job['spec']}
+                chk.add_violation(clause, sig_a(clause, job['spec'], rec), dict(what, now=rec['args'], result=rec['obs']), {'mode': job['mode'], 'job': one})
+    if shapes['offered']:
+        if shapes['accepted'] == 0 and shapes['offered'] > 1:
+            raise core.Machinery('rule_10 accepts no shape of MOMENT at all: the domain of the property is empty')
+        chk.counters.update(moment_shapes_offered_to_rule_10=shapes['offered'], moment_shapes_accepted=shapes['accepted'], shape_delay_records_validated=shapes['accepted_records'], rule_10_vs_wellformed_disagreements=len(rows['ACCEPT']))
     return n_rec, n_nontrivial, n_unaccepted
 
 
@@ -143,6 +182,9 @@ def replay_a(chk, pid, rnd, domain, ndays, nextra):
     extras = [rnd.randrange(horizon) for _ in range(nextra)]
     instants = [d['i'] * 86400 + t for d in use for t in tods]
     jobs = delay_jobs(epoch, specs, instants, extras, block=1200)
+    # the domain of the property from the real compliance rule: all shapes of MOMENT at a spread of the instants
+    some = sorted(set(instants))
+    jobs += shape_jobs(epoch, some[:: max(1, len(some) // (48 if ndays is None else 16))], len(jobs))
     files = chk.run_harness('moment_h', jobs)
     chk.traces += len(jobs)
     n_rec, n_nontrivial, n_unacc = collect_a(chk, pid, jobs, files)
@@ -316,6 +358,7 @@ MUTANTS = [  # (in-memory mutant of the real code, part, clause that must be rep
     ('late_hour', 'a', 'C20.Lands'),
     ('dow_next_week', 'a', 'C20.NotFurther'),
     ('leap_day_raises', 'a', 'C20.Computable'),
+    ('rule_time_optional', 'a', 'C20.Computable'),  # rule_10 lets a weekly/monthly/dated event without a time of day through
     ('first_target_only', 'b', 'C20.FireTargets'),
     ('boot_by_short_name', 'b', 'C20.BootFires'),
     ('forget_served', 'b', 'C20.Once'),  # only meaningful on a tree with the repaired defer (fixes/C20_rearm.patch)
@@ -358,6 +401,8 @@ def selftest(pid, seed):
         finally:
             del os.environ['VERIF_C20_MUTANT']
         hit = sum(1 for v in chk.violations if v['clause'] == clause and not v['signature'].startswith('idle-status-waiting'))
+        if name == 'rule_time_optional':
+            hit = sum(1 for v in chk.violations if v['clause'] == clause and v['signature'].startswith('shape-accepted-by-rule_10'))
         if name == 'forget_served' and hit == 0 and chk.counters.get('schedules_with_a_second_firing', 0) == 0:
             print(f'SELFTEST {pid} mutant {name}: skipped, this tree never fires a second time (defer without fixes/C20_rearm.patch)')
             continue
@@ -429,7 +474,7 @@ def run(pid, tier, seed, replay=None):
         job = dict(rp['job'], id=0)
         files = chk.run_harness('moment_h', [job])
         chk.traces += 1
-        if rp['mode'] == 'delay':
+        if rp['mode'] in ('delay', 'shape'):
             collect_a(chk, pid, [job], files)
         else:
             collect_b(chk, pid, [job], files)
